@@ -20,6 +20,10 @@ THEOREMS = [
     "depsort_docstring_transitive_refuted",
     "qualify_is_expansion", "qualify_prefix_independent", "qualify_default_vs_prefix",
     "qualify_depends_on_expansion_only",
+    "tables_order_independent", "declaration_order_independent", "group_factoring_invariant",
+    "ref_vs_inline_invariant", "attribute_group_factoring_invariant", "extension_prepends_base",
+    "global_element_qualified_partial", "global_element_later_block_refuted",
+    "local_form_partial", "mixed_element_form_default_refuted",
 ]
 
 PRE_D = "From SV Require Import Lib.Base C07.DepSort."
@@ -52,9 +56,9 @@ def gen_graphs(ck):
             subsets.extend(itertools.combinations(targets, r))
         for combo in itertools.product(subsets, repeat=n):
             out.append(("exh%d" % n, [(k + 1, list(ds)) for k, ds in enumerate(combo)]))
-            if n == 3 and any(len(ds) > 1 for ds in combo):
+            if n == 3 and any(len(ds) > 2 for ds in combo):
                 out.append(("exh%d-rev" % n, [(k + 1, list(reversed(ds))) for k, ds in enumerate(combo)]))
-    n_rand = 1500 if ck.tier == "quick" else 60000
+    n_rand = 1200 if ck.tier == "quick" else 60000
     for i in range(n_rand):
         n = rng.choice([4, 4, 5, 5, 5]) if i % 10 else rng.randrange(6, 41)
         keys = list(range(1, n + 1))
@@ -90,7 +94,7 @@ def run_depsort(ck, unproved):
         cyc = any(k in ds for k, ds in items) or len(items) > 1
         ck.seen(("d", tuple((k, tuple(ds)) for k, ds in items)), nontrivial=len(items) > 1)
         ck.count("depsort-" + label)
-    res = ck.run_cases("depsort", PRE_D, "dcase", cases, ["depsort_agrees", "depsort_spec_ok"], shard=500)
+    res = ck.run_cases("depsort", PRE_D, "dcase", cases, ["depsort_agrees", "depsort_spec_ok"], shard=700)
     bad = set(res["depsort_spec_ok"])
     for i in sorted(bad)[:3]:
         items, impl = meta[i]
@@ -874,9 +878,13 @@ def gen_iface(rng):
     from . import family as F
     S = F.gen_schema(rng)
     ops = []
+    referenced = set((p.tref[1], p.tref[2]) for t in S.types for p, _ in S.flat(t)
+                     if isinstance(p, F.Elem) and p.tref[0] == "n")
     for k, t in enumerate(S.types):
-        if k == 0 or rng.random() < 0.6:
-            out = rng.choice(S.types) if rng.random() < 0.5 else None
+        # types some element already refers to get an operation of their own less often, so that
+        # some types are referred to exactly once (those may be written anonymously)
+        if k == 0 or rng.random() < (0.25 if (t.ns, t.name) in referenced else 0.7):
+            out = rng.choice(S.types) if rng.random() < 0.35 else None
             ops.append(F.Op("op%d" % k, "wrapped", in_type=(t.ns, t.name),
                             out_type=(out.ns, out.name) if out else None))
     tb, tr = rng.choice(S.types), rng.choice(S.types)
@@ -1180,15 +1188,8 @@ KNOWN_C = "C07:same-namespace-blocks-elementFormDefault"
 
 
 def toggles(plan, iface):
-    """(finding key, what, repaired plan) candidates: the plan with ONE feature
-    switched off.  Known classes first, then the generic syntactic features."""
-    import copy
-
-    def mod(f):
-        q = copy.copy(plan)
-        q.block_of = dict(plan.block_of)
-        f(q)
-        return q
+    """(finding key, what, mutator) candidates: each switches ONE feature of a
+    plan off.  Known classes first, then the generic syntactic features."""
     out = []
     if max(plan.nblocks) > 1:
         def gf(q):
@@ -1196,13 +1197,13 @@ def toggles(plan, iface):
                 for key, d in ds:
                     if key[0] == "element":
                         q.block_of[(ns, key)] = 0
-        out.append((KNOWN_A, "global element declared in a later <schema> block of its namespace", mod(gf)))
+        out.append((KNOWN_A, "global element declared in a later <schema> block of its namespace", gf))
     if plan.efd_flip:
         out.append((KNOWN_C, "blocks of one namespace with different elementFormDefault",
-                    mod(lambda q: setattr(q, "efd_flip", {}))))
+                    lambda q: setattr(q, "efd_flip", {})))
     if "xsi" in plan.prefixes:
         out.append((KNOWN_B, "a target namespace spelled with the prefix xsi",
-                    mod(lambda q: setattr(q, "prefixes", [x if x != "xsi" else "tns9" for x in plan.prefixes]))))
+                    lambda q: setattr(q, "prefixes", [x if x != "xsi" else "tns9" for x in q.prefixes])))
     generic = [
         ("anonymous-types", bool(plan.anon), lambda q: setattr(q, "anon", set())),
         ("element-refs", bool(plan.refs), lambda q: setattr(q, "refs", set())),
@@ -1226,23 +1227,55 @@ def toggles(plan, iface):
     ]
     for name, present, f in generic:
         if present:
-            out.append(("C07:rendering-" + name, "rendering feature: " + name, mod(f)))
+            out.append(("C07:rendering-" + name, "rendering feature: " + name, f))
     return out
 
 
 def attribute(iface, plan, observe, expected):
-    """Which single feature of `plan`, once switched off, makes `observe(client)`
-    equal `expected` again?  -> (key, what)"""
-    for key, what, q in toggles(plan, iface):
+    """Which features of `plan`, once switched off, make `observe(client)` equal
+    `expected` again?  One feature if one suffices, else the shortest prefix of
+    the candidate list (known classes first).  -> [(key, what)]"""
+    import copy
+
+    def fresh():
+        q = copy.copy(plan)
+        q.block_of = dict(plan.block_of)
+        return q
+
+    def fixed(q):
         try:
             wsdl, _ = render(iface, q)
             c, err = load_client(wsdl)
             got = ("load-error", err) if c is None else observe(c)
         except Exception as e:  # noqa
             got = ("harness", repr(e))
-        if got == expected:
-            return key, what
-    return "C07:rendering-unattributed", "no single rendering feature explains it"
+        return got == expected
+    cands = toggles(plan, iface)
+    known = [c for c in cands if c[0] in (KNOWN_A, KNOWN_B, KNOWN_C)]
+    # known classes (alone, then together) before any generic feature: switching a generic
+    # feature off (e.g. "one block per namespace") also removes the known quirks
+    for group in (known, cands):
+        for key, what, f in group:
+            q = fresh()
+            f(q)
+            if fixed(q):
+                return [(key, what)]
+        q = fresh()
+        applied = []
+        for key, what, f in group:
+            f(q)
+            applied.append((key, what, f))
+            if fixed(q):
+                needed = []                  # drop the ones that are not needed
+                for i, a in enumerate(applied):
+                    q2 = fresh()
+                    for j, b_ in enumerate(applied):
+                        if j != i:
+                            b_[2](q2)
+                    if not fixed(q2):
+                        needed.append(a[:2])
+                return needed or [a[:2] for a in applied]
+    return [("C07:rendering-unattributed", "no combination of rendering features explains it")]
 
 
 class ObsEnc(object):
@@ -1305,14 +1338,16 @@ def run_render(ck, unproved):
 
     def deviation(iface, plan, wsdl, label, observe, expected, got, detail):
         """A rendering whose client behaves differently from the baseline client."""
-        key, what = attribute(iface, plan, observe, expected)
         ck.count("deviating-renderings")
-        if key not in deviations:
-            deviations[key] = {"part": "render", "observable": label, "class": what,
-                               "rendering_features": sorted(plan.features()), "wsdl": wsdl.decode("utf-8"),
-                               "baseline_wsdl": detail["baseline_wsdl"], "baseline": repr(expected)[:3000],
-                               "this_rendering": repr(got)[:3000], "input": detail.get("input")}
-        return key
+        keys = []
+        for key, what in attribute(iface, plan, observe, expected):
+            keys.append(key)
+            if key not in deviations:
+                deviations[key] = {"part": "render", "observable": label, "class": what,
+                                   "rendering_features": sorted(plan.features()), "wsdl": wsdl.decode("utf-8"),
+                                   "baseline_wsdl": detail["baseline_wsdl"], "baseline": repr(expected)[:3000],
+                                   "this_rendering": repr(got)[:3000], "input": detail.get("input")}
+        return keys
 
     for si in range(n_ifaces):
         iface = gen_iface(rng)
@@ -1334,10 +1369,10 @@ def run_render(ck, unproved):
             for f in plan.features():
                 feature_count[f] = feature_count.get(f, 0) + 1
             if c is None:
-                key = deviation(iface, plan, wsdl, "load", lambda cl: "loaded", "loaded", ("load-error", err),
-                                {"baseline_wsdl": wsdl0.decode("utf-8")})
-                ck.failing_input(key, "a rendering of an interface that loads when written plainly fails to load: "
-                                 + err, deviations[key])
+                for key in deviation(iface, plan, wsdl, "load", lambda cl: "loaded", "loaded", ("load-error", err),
+                                     {"baseline_wsdl": wsdl0.decode("utf-8")}):
+                    ck.failing_input(key, "a rendering of an interface that loads when written plainly fails to "
+                                     "load: " + err, deviations[key])
                 ck.seen(("load", si, k))
                 continue
             rend.append((plan, wsdl, c, blocks))
@@ -1358,7 +1393,7 @@ def run_render(ck, unproved):
                 if res[j] != res[0]:
                     d = dict(detail)
                     d["input"] = input_
-                    by_j[j].append(deviation(iface, rend[j][0], rend[j][1], label, observe, res[0], res[j], d))
+                    by_j[j].extend(deviation(iface, rend[j][0], rend[j][1], label, observe, res[0], res[j], d))
                     keys.extend(by_j[j])
             last_by_j[:] = by_j
             return res, keys
@@ -1513,10 +1548,10 @@ def run_render(ck, unproved):
     for f, n in sorted(feature_count.items()):
         ck.count("renderings-with-" + f, n)
 
-    def judge(label, cases, ctype, spec_ok, agrees=None, shard=40):
+    def judge(label, cases, ctype, spec_ok, agrees=None, shard=40, denot=None):
         if not cases:
             return
-        preds = [spec_ok] + ([agrees] if agrees else [])
+        preds = [spec_ok] + ([agrees] if agrees else []) + ([denot] if denot else [])
         res = ck.run_cases(label, PRE_R, ctype, [c for c, _ in cases], preds, shard=shard)
         bad = set(res[spec_ok])
         for i in sorted(bad):
@@ -1542,6 +1577,14 @@ def run_render(ck, unproved):
             if dis:
                 unproved.append({"correspondence": agrees, "count": len(dis),
                                  "first": {"observable": cases[dis[0]][1][0], "case": cases[dis[0]][0]}})
+        if denot:
+            # the model run on the rendering as written = the abstract interface, except on the
+            # renderings that hit one of the quirks the model keeps
+            off = [i for i in res[denot] if not cases[i][1][1]]
+            ck.extra["renderings_where_model_differs_from_denotation"] = len(res[denot])
+            if off:
+                unproved.append({"correspondence": denot, "count": len(off),
+                                 "first": {"observable": cases[off[0]][1][0], "case": cases[off[0]][0]}})
 
     judge("wrapped", W, "rwcase", "render_wrapped_spec_ok", "render_wrapped_agrees")
     judge("bare", B, "rbcase", "render_bare_spec_ok", "render_bare_agrees")
@@ -1549,7 +1592,7 @@ def run_render(ck, unproved):
     judge("params", PC, "pcase", "params_spec_ok")
     judge("factory", FC, "fcase", "factory_spec_ok")
     judge("observed", EC, "ecase", "equal_spec_ok")
-    judge("schema", SC, "scase", "schema_spec_ok", "schema_agrees")
+    judge("schema", SC, "scase", "schema_spec_ok", "schema_agrees", denot="schema_model_is_denotation")
 
 
 # ---------------------------------------------------------------------------
@@ -1564,7 +1607,25 @@ def run(ck):
         "harness/family.py: abstract interface generator, value generator, infoset -> Coq printer",
         "expat (namespace mode) as the independent XML processor (in-scope namespaces, request infosets)",
     ]
-    ck.notes = []
+    ck.notes = [
+        "modelled statement by statement: depsort.dependency_sort/_sort_r (fuel + sufficiency theorem); xsd.qualify, "
+        "sax.splitPrefix, Element.resolvePrefix/defaultNamespace, SchemaObject.qualify, the wsdl reference callers",
+        "modelled as the view sxbase.Iter gives of the dereferenced object graph (by name lookup, not by replaying "
+        "the in-place merges): SchemaCollection.add, Factory.collate, Element.__init__ form rule incl. the two block "
+        "quirks, Element/Group/AttributeGroup/Extension.merge; compared with suds' own schema objects for every "
+        "rendering (schema_agrees) and with the abstract interface (schema_spec_ok)",
+        "covered by correspondence only: wsdl.Definitions linking (messages/portTypes/bindings/services, children "
+        "order, set_wrapped), anonymous types, the marshaller (C01's model and reference are re-used on every "
+        "rendering), factory objects (top-level keys by rule, the rest pairwise), decoded replies (pairwise)",
+        "renderings are produced by this file's own renderer; what may vary: prefix spellings (definitions-level and "
+        "per-block respellings incl. shadowing), default namespace (XSD, WSDL, own target namespace), order of "
+        "top-level declarations and of schema blocks, named vs anonymous types, group / attributeGroup factoring, "
+        "element ref vs inline, 1-3 blocks per namespace (optionally with differing elementFormDefault compensated by "
+        "form=), WSDL children order, redundant attributes",
+        "not generated: unprefixed references without a default namespace (suds resolves them to the "
+        "targetNamespace, XSD to no namespace), prefix declarations on wsdl:port/wsdl:input (suds resolves WSDL "
+        "references against the enclosing portType/binding/service element only), xmlns=\"\" undeclarations",
+    ]
     proof_ok = ck.prove(THEOREMS)
     unproved = []
     import os
@@ -1580,7 +1641,17 @@ def run(ck):
         run_render(ck, unproved)
     t3 = time.time()
     ck.extra["wall_by_part_s"] = {"depsort": round(t1 - t0, 1), "qualify": round(t2 - t1, 1), "render": round(t3 - t2, 1)}
-    ck.rule = ""
+    ck.rule = ("(1) every digraph with <= 3 keys over {keys + one dangling target} (dict order 1..n, dependency lists "
+               "ascending, plus reversed lists for the dense ones) and random digraphs of 4-5 keys (dense) and 6-40 keys "
+               "with shuffled insertion order, dangling and repeated dependencies [thorough: every digraph with 4 keys]; "
+               "(2) random documents of nesting depth 1-4 with prefix (re)declarations and default namespaces, a "
+               "reference in the innermost element, resolved through SchemaObject.qualify / wsdl.Part / qualify and "
+               "by expat; (3) generated abstract interfaces of the shared family x 1 plain + K random renderings each "
+               "(K=4 quick, 6 thorough): all clients compared on service definition, parameter definitions, factory "
+               "objects of every type that keeps its name, requests (wrapped per type, bare, rpc/literal) for generated "
+               "argument trees, decoded injected replies, and the dereferenced schema objects; distinct = (interface, "
+               "observable, repetition); non-trivial = more than one key (1), a prefixed reference or a default "
+               "namespace in scope (2), an object/list argument or any non-request observable (3)")
     if proof_ok is False:
         ck.unproved("proof obligation of C07 no longer checks: " + ck.proof_log[-1500:], {"log": ck.proof_log[-3000:]})
     if unproved:
@@ -1600,8 +1671,22 @@ def replay(ck, payload):
             print("dependency_sort(%r) now returns %r" % (tree, dependency_sort(tree)))
         except Exception as e:  # noqa
             print("dependency_sort(%r) now raises %r" % (tree, e))
+    elif part == "render" and payload.get("wsdl"):
+        print("observable:", payload.get("observable"), "| class:", payload.get("class"))
+        print("features of the deviating rendering:", payload.get("rendering_features"))
+        print("input:", payload.get("input"))
+        print("recorded, plain rendering :", payload.get("baseline"))
+        print("recorded, this rendering  :", payload.get("this_rendering"))
+        for label, key in (("plain rendering", "baseline_wsdl"), ("deviating rendering", "wsdl")):
+            if payload.get(key):
+                c, err = load_client(payload[key].encode("utf-8"))
+                if c is None:
+                    print("%s now fails to load: %s" % (label, err))
+                else:
+                    print("%s now loads; its service definition:" % label)
+                    print(str(c)[:3000])
     else:
-        for k in ("document", "mode", "ref", "result", "disagreements"):
+        for k in ("document", "mode", "ref", "result", "observable", "input", "case", "disagreements", "log"):
             if k in payload:
-                print(k, "=", payload[k])
+                print(k, "=", str(payload[k])[:4000])
     return 0
